@@ -56,7 +56,34 @@ def timing_program(rng, nroots=None, depth=0):
     return {'start': start, 'roots': [ops(rng.randint(1, 5), 0) for _ in range(nroots)]}
 
 
-TIME_FIELDS = ('t', 'due', 'at')
+def tick_program(rng):
+    """tickers with dyadic periods, bodies shorter / equal / longer than the period, various start times"""
+    start = rng.choice([-10, -10, -2.5, 0, 0, 3, 7.5])
+    per = [0, 0.5, 1, 1.5, 2, 2.5, 5]
+    roots = []
+    for _ in range(rng.randint(1, 4)):
+        ops = []
+        slots = [{'i': i + 1, 'kind': rng.choice(['interval', 'delay']), 'p': rng.choice(per)} for i in range(2)]
+        wrap = rng.random() < 0.3
+        if wrap:
+            ops.append({'op': 'open', 'kind': 'until_d', 'd': rng.choice([2, 5, 7.5, 10]), 'catch': True})
+        for _ in range(rng.randint(2, 7)):
+            sl = rng.choice(slots)
+            ops.append(dict(op='tick', **sl))
+            r = rng.random()
+            if r < 0.5:
+                ops.append({'op': 'sleep', 'd': rng.choice([0.5, 1, 1.5, 2, 2.5, 3, 5, 5.5])})
+            elif r < 0.7:
+                ops.append({'op': 'instant'})
+        if wrap:
+            ops.append({'op': 'leave'})
+        roots.append(ops)
+    if rng.random() < 0.5:
+        roots.append([{'op': 'instant'}] * rng.randint(1, 6))      # a spinner
+    return {'start': start, 'roots': roots}
+
+
+TIME_FIELDS = ('t', 'due', 'at', 'v')
 
 
 def rankify(trace):
@@ -83,6 +110,7 @@ def rankify(trace):
         if isinstance(c, list) and len(c) == 2 and isinstance(c[1], (int, float)) and c[0] in ('ge', 'eq', 'lt'):
             e['c'] = [c[0], rank[float(c[1])]]
         e.pop('d', None)
+        e.pop('p', None)
         e.pop('msg', None)
         e['rank'] = True
         out.append(e)
